@@ -236,6 +236,20 @@ def source_ydayidx():
     return None
 
 
+def with_generated(reqs, exp):
+    """every request to a hand-model op is repeated against the definition RE-TRANSLATED from /repo on this run
+    (Generated/RDOps.lean, ops rdgen.*): the translator is validated against the implementation like the model is"""
+    gen = {"rd.add": "rdgen.add", "rd.rsub": "rdgen.rsub", "rd.mk": "rdgen.mk", "rd.expr": "rdgen.expr",
+           "rd.bool": "rdgen.bool", "rd.hash": "rdgen.hash", "rd.eq": "rdgen.eq", "rd.diff": "rdgen.diff",
+           "rd.diffn": "rdgen.diffn", "rd.diffo": "rdgen.diffo"}
+    r2, e2 = list(reqs), list(exp)
+    for q, e in zip(reqs, exp):
+        op = q.split(" ", 1)[0]
+        if op in gen:
+            r2.append(gen[op] + q[len(op):]); e2.append(e)
+    return r2, e2
+
+
 # ---------- generators ----------
 BOUNDARY = [0, 1, -1, 2, 11, 12, 13, 23, 24, 25, 59, 60, 61, 119, 120, 999999, 1000000, 1000001, 86399, 86400, 86401]
 
